@@ -173,7 +173,7 @@ def main(argv):
             lines += run_harness(v, ['text', f], seed, timeout=300)
         for f in sorted(glob.glob(os.path.join(VERIF, 'corpus', 'C09', '*.ecl'))):
             lines += run_harness(v, ['ecl10', f], seed, timeout=300)
-        nprog, maxmut, cli = (60, 8, 30) if tier == 'quick' else (250, 0, 200)
+        nprog, maxmut, cli = (50, 8, 20) if tier == 'quick' else (250, 0, 200)
         if os.environ.get('C09_GEN'): nprog, maxmut, cli = [int(x) for x in os.environ['C09_GEN'].split(',')]
         lines += run_harness(v, ['gen', nprog, maxmut, cli], seed)
     if h_ok and replay:
